@@ -14,7 +14,7 @@ import numpy as np
 
 from ..simkit import gen, refmodel
 from ..simkit.backends import BackendFault, classes
-from ..simkit.core import call, judge, clear_library_caches
+from ..simkit.core import Viol, call, judge, clear_library_caches
 from ..simkit.simfs import Seams, SimFS
 from ..simkit.simrng import POLICIES, SimRNG
 from ..simkit.simalloc import SimAlloc
@@ -265,6 +265,7 @@ class World:
         return B["obj"].n_jobs_executed  # bundled simulator: its job counter is the only execution trace
 
     def _arm(self, st, R, step):
+        st.pop("fault_absorbed", None)
         f = step.get("fault")
         B = self._base(R)
         k = B["spec"]["kind"]
@@ -342,6 +343,17 @@ class World:
         return self._segments(R, ent["c"])
 
     def _tracker_record_check(self, ctx, st, R, pairs, dist=None):
+        absorbed = st.pop("fault_absorbed", None)
+        if absorbed is None:
+            return self._tracker_record_check_(ctx, st, R, pairs, dist)
+        try:
+            return self._tracker_record_check_(ctx, st, R, pairs, dist)
+        except Viol as v:
+            ctx.fail("swallowed-error", f"tracker:{absorbed[0]}",
+                     f"{absorbed[1]}: call returned although an injected {absorbed[0]} fired while writing the record, and the file does "
+                     f"not hold the record: {v.detail[:500]}")
+
+    def _tracker_record_check_(self, ctx, st, R, pairs, dist=None):
         """pairs: [(circuit ent, measurement)] for this call, in order."""
         from orquestra.quantum.circuits import to_dict
         spec = R["spec"]
@@ -392,7 +404,10 @@ class World:
             R["disk_fault_pending"] = True
             return "disk"
         if ok and fired:
-            ctx.fail("swallowed-error", f"tracker:{fired[0][0]}", f"{what}: call returned although an injected {fired[0][0]} fired while writing the record")
+            # the call returned although a disk fault fired while the record was written: fine if the tracker coped
+            # and the record IS in the file (checked by the record check that follows), a swallowed error if not
+            st["fault_absorbed"] = (fired[0][0], what)
+            ctx.probe("tracker-fault-absorbed")
         return None
 
     def _unserialisable(self, ctx, R, ents):
